@@ -317,5 +317,800 @@ theorem Inv_init : Inv [] State.init := by
   · intro o r h; simp [State.init, AL.get?] at h
   · intro k; left; simp [State.init, lookup, AL.get?, NoWriteIn]
 
+theorem stepped_lift {pre : List Ev} (l' : List Ev) (hc : Closed pre) {ev : Ev} {op : Op}
+    {x : Option Val}
+    (h : ∃ j : Nat, pre[j]? = some ev ∧ ∀ k, op = .get k → MapValAt pre k j x) :
+    ∃ j : Nat, (pre ++ l')[j]? = some ev ∧ ∀ k, op = .get k → MapValAt (pre ++ l') k j x := by
+  obtain ⟨j, h1, h2⟩ := h
+  have hj : j < pre.length := by
+    rcases Nat.lt_or_ge j pre.length with h | h
+    · exact h
+    · simp [List.getElem?_eq_none h] at h1
+  exact ⟨j, by rw [List.getElem?_append_left hj]; exact h1,
+    fun k hk => MapValAt_append l' hc (Nat.le_of_lt hj) (h2 k hk)⟩
+
+theorem Inv_invoke {pre : List Ev} {s s' : State} {t : Tid} {o : Oid} {op : Op}
+    (hi : Inv pre s) (h : step s (.invoke t o op) = some s') :
+    Inv (pre ++ [.invoke t o op]) s' := by
+  obtain ⟨hnone, _, rfl⟩ := step_invoke_some h
+  have hc := hi.closed
+  refine ⟨?_, ?_, ?_, ?_, ?_, ?_⟩
+  · intro o'
+    simp only [opOf_append, opOf, AL_get?_put, hi.ops_eq]
+    by_cases hoo : o = o'
+    · subst hoo; simp [hnone]
+    · simp [hoo]
+  · intro o' hm
+    simp only [List.mem_append, List.mem_singleton, reduceCtorEq, or_false] at hm
+    obtain ⟨r, hr, hp⟩ := hi.step_rec o' hm
+    have : o ≠ o' := by intro e; subst e; simp [hnone] at hr
+    exact ⟨r, by simp [AL_get?_put, this, hr], hp⟩
+  · intro o' r hr hp
+    simp only [AL_get?_put] at hr
+    split at hr
+    · simp only [Option.some.injEq] at hr; subst hr; simp at hp
+    · exact stepped_lift _ hc (hi.stepped o' r hr hp)
+  · intro o' x hm
+    simp only [List.mem_append, List.mem_singleton, reduceCtorEq, or_false] at hm
+    obtain ⟨r, hr, hp⟩ := hi.resp_rec o' x hm
+    have : o ≠ o' := by intro e; subst e; simp [hnone] at hr
+    exact ⟨r, by simp [AL_get?_put, this, hr], hp⟩
+  · intro o' r hr hp
+    simp only [AL_get?_put] at hr
+    split at hr
+    · simp only [Option.some.injEq] at hr; subst hr; simp at hp
+    · simp [hi.done_resp o' r hr hp]
+  · intro k
+    simp only [List.length_append, List.length_singleton]
+    exact MapValAt_snoc_skip hc (by simp [writesKey, effect]) (hi.mapv k)
+
+theorem Inv_daemon {pre : List Ev} {s s' : State} {k : Key}
+    (hi : Inv pre s) (h : step s (.daemon k) = some s') :
+    Inv (pre ++ [.daemon k]) s' := by
+  have := step_daemon_some h
+  subst this
+  have hc := hi.closed
+  refine ⟨?_, ?_, ?_, ?_, ?_, ?_⟩
+  · intro o'
+    simp [opOf_append, opOf, hi.ops_eq]
+  · intro o' hm
+    simp only [List.mem_append, List.mem_singleton, reduceCtorEq, or_false] at hm
+    exact hi.step_rec o' hm
+  · intro o' r hr hp
+    exact stepped_lift _ hc (hi.stepped o' r hr hp)
+  · intro o' x hm
+    simp only [List.mem_append, List.mem_singleton, reduceCtorEq, or_false] at hm
+    exact hi.resp_rec o' x hm
+  · intro o' r hr hp
+    simp [hi.done_resp o' r hr hp]
+  · intro k'
+    simp only [List.length_append, List.length_singleton, lookup_remove]
+    split
+    · subst_vars
+      exact MapValAt_snoc_write (by simp [effect])
+    · exact MapValAt_snoc_skip hc (by simp [writesKey, effect]; assumption) (hi.mapv k')
+
+theorem Inv_respond {pre : List Ev} {s s' : State} {o : Oid} {x : Option Val}
+    (hi : Inv pre s) (h : step s (.respond o x) = some s') :
+    Inv (pre ++ [.respond o x]) s' := by
+  obtain ⟨r, hr, hph, hret, rfl⟩ := step_respond_some h
+  have hc := hi.closed
+  refine ⟨?_, ?_, ?_, ?_, ?_, ?_⟩
+  · intro o'
+    simp only [opOf_append, opOf, AL_get?_put, hi.ops_eq, Option.or_none]
+    split
+    · subst_vars; simp [hr]
+    · rfl
+  · intro o' hm
+    simp only [List.mem_append, List.mem_singleton, reduceCtorEq, or_false] at hm
+    obtain ⟨r', hr', hp'⟩ := hi.step_rec o' hm
+    simp only [AL_get?_put]
+    split
+    · subst_vars; exact ⟨_, rfl, by simp⟩
+    · exact ⟨r', hr', hp'⟩
+  · intro o' r' hr' hp'
+    simp only [AL_get?_put] at hr'
+    split at hr'
+    · subst_vars
+      simp only [Option.some.injEq] at hr'; subst hr'
+      exact stepped_lift _ hc (hi.stepped _ r hr (by simp [hph]))
+    · exact stepped_lift _ hc (hi.stepped o' r' hr' hp')
+  · intro o' x' hm
+    simp only [List.mem_append, List.mem_singleton, Ev.respond.injEq] at hm
+    simp only [AL_get?_put]
+    rcases hm with hm | ⟨rfl, rfl⟩
+    · obtain ⟨r', hr', hp', hx'⟩ := hi.resp_rec o' x' hm
+      split
+      · subst_vars
+        rw [hr] at hr'; simp only [Option.some.injEq] at hr'; subst hr'
+        simp [hph] at hp'
+      · exact ⟨r', hr', hp', hx'⟩
+    · simp [hret]
+  · intro o' r' hr' hp'
+    simp only [AL_get?_put] at hr'
+    split at hr'
+    · subst_vars
+      simp only [Option.some.injEq] at hr'; subst hr'
+      simp
+    · simp [hi.done_resp o' r' hr' hp']
+  · intro k
+    simp only [List.length_append, List.length_singleton]
+    exact MapValAt_snoc_skip hc (by simp [writesKey, effect]) (hi.mapv k)
+
+theorem effect_mapStep_snoc {pre : List Ev} {s : State} (hi : Inv pre s) {o : Oid} {r : OpRec}
+    (hr : AL.get? s.ops o = some r) :
+    effect (pre ++ [.mapStep o]) (.mapStep o) =
+      match r.op with
+      | .ins k v => some (k, some v)
+      | .del k => some (k, none)
+      | .get _ => none := by
+  have h1 : opOf pre o = some (r.tid, r.op) := by rw [hi.ops_eq, hr]; rfl
+  simp only [effect, opOf_append_of_some _ h1]
+  cases r.op <;> rfl
+
+theorem Inv_mapStep {pre : List Ev} {s s' : State} {o : Oid}
+    (hi : Inv pre s) (h : step s (.mapStep o) = some s') :
+    Inv (pre ++ [.mapStep o]) s' := by
+  obtain ⟨r, hr, hph, hops, hmap⟩ := step_mapStep_some h
+  have hc := hi.closed
+  have heff := effect_mapStep_snoc hi hr
+  refine ⟨?_, ?_, ?_, ?_, ?_, ?_⟩
+  · intro o'
+    simp only [opOf_append, opOf, hops, AL_get?_put, hi.ops_eq, Option.or_none]
+    split
+    · subst_vars; simp [hr]
+    · rfl
+  · intro o' hm
+    simp only [hops, AL_get?_put]
+    split
+    · exact ⟨_, rfl, by simp⟩
+    · rename_i hne
+      simp only [List.mem_append, List.mem_singleton, Ev.mapStep.injEq] at hm
+      rcases hm with hm | hm
+      · exact hi.step_rec o' hm
+      · exact absurd hm.symm hne
+  · intro o' r' hr' hp'
+    simp only [hops, AL_get?_put] at hr'
+    split at hr'
+    · subst_vars
+      simp only [Option.some.injEq] at hr'; subst hr'
+      refine ⟨pre.length, by simp, ?_⟩
+      intro k hk
+      simp only at hk
+      simp only [hk]
+      exact MapValAt_append _ hc (Nat.le_refl _) (hi.mapv k)
+    · exact stepped_lift _ hc (hi.stepped o' r' hr' hp')
+  · intro o' x' hm
+    simp only [List.mem_append, List.mem_singleton, reduceCtorEq, or_false] at hm
+    obtain ⟨r', hr', hp', hx'⟩ := hi.resp_rec o' x' hm
+    simp only [hops, AL_get?_put]
+    split
+    · subst_vars
+      rw [hr] at hr'; simp only [Option.some.injEq] at hr'; subst hr'
+      simp [hph] at hp'
+    · exact ⟨r', hr', hp', hx'⟩
+  · intro o' r' hr' hp'
+    simp only [hops, AL_get?_put] at hr'
+    split at hr'
+    · simp only [Option.some.injEq] at hr'; subst hr'
+      simp at hp'
+    · simp [hi.done_resp o' r' hr' hp']
+  · intro k'
+    simp only [List.length_append, List.length_singleton, hmap]
+    cases hop : r.op with
+    | ins k v =>
+      simp only [hop] at heff
+      simp only [lookup_store]
+      split
+      · subst_vars; exact MapValAt_snoc_write heff
+      · rename_i hne
+        exact MapValAt_snoc_skip hc (by rw [writesKey_of_effect heff]; simpa using hne)
+          (hi.mapv k')
+    | del k =>
+      simp only [hop] at heff
+      simp only [lookup_remove]
+      split
+      · subst_vars; exact MapValAt_snoc_write heff
+      · rename_i hne
+        exact MapValAt_snoc_skip hc (by rw [writesKey_of_effect heff]; simpa using hne)
+          (hi.mapv k')
+    | get k =>
+      simp only [hop] at heff
+      exact MapValAt_snoc_skip hc (writesKey_of_effect_none heff) (hi.mapv k')
+
+theorem Inv_step {pre : List Ev} {s s' : State} {e : Ev}
+    (hi : Inv pre s) (h : step s e = some s') : Inv (pre ++ [e]) s' := by
+  cases e with
+  | invoke t o op => exact Inv_invoke hi h
+  | mapStep o => exact Inv_mapStep hi h
+  | respond o x => exact Inv_respond hi h
+  | daemon k => exact Inv_daemon hi h
+
+theorem list_snoc_induction {α : Type} {P : List α → Prop} (nil : P [])
+    (snoc : ∀ l a, P l → P (l ++ [a])) : ∀ l, P l := by
+  intro l
+  have h : ∀ r : List α, P r.reverse := by
+    intro r
+    induction r with
+    | nil => exact nil
+    | cons a r ih => simpa using snoc _ a ih
+  simpa using h l.reverse
+
+theorem Inv_run : ∀ {evs : List Ev} {s : State}, run evs = some s → Inv evs s := by
+  intro evs
+  induction evs using list_snoc_induction with
+  | nil =>
+    intro s h
+    simp only [run, runFrom, Option.some.injEq] at h
+    subst h; exact Inv_init
+  | snoc pre e ih =>
+    intro s h
+    obtain ⟨s0, h0, h1⟩ := (run_snoc pre e s).1 h
+    exact Inv_step (ih h0) h1
+
+/-! ## Order lemmas on well-formed executions -/
+
+theorem getElem?_take_some {evs : List Ev} {p i : Nat} {e : Ev} :
+    (evs.take p)[i]? = some e ↔ i < p ∧ evs[i]? = some e := by
+  rw [List.getElem?_take]
+  split
+  · simp_all
+  · simp; omega
+
+theorem mem_take_pos {evs : List Ev} {p : Nat} {e : Ev} (h : e ∈ evs.take p) :
+    ∃ i, i < p ∧ evs[i]? = some e := by
+  obtain ⟨i, hi⟩ := List.mem_iff_getElem?.1 h
+  exact ⟨i, getElem?_take_some.1 hi⟩
+
+theorem mem_take_of_pos {evs : List Ev} {p i : Nat} {e : Ev} (h1 : i < p)
+    (h2 : evs[i]? = some e) : e ∈ evs.take p :=
+  List.mem_iff_getElem?.2 ⟨i, getElem?_take_some.2 ⟨h1, h2⟩⟩
+
+theorem opOf_take {evs : List Ev} {p : Nat} {o : Oid} {x : Tid × Op}
+    (h : opOf (evs.take p) o = some x) : opOf evs o = some x := by
+  have := opOf_append_of_some (evs.drop p) h
+  rwa [List.take_append_drop] at this
+
+theorem mapStep_invoked_before {evs : List Ev} {s : State} (h : run evs = some s)
+    {p : Nat} {o : Oid} (hp : evs[p]? = some (.mapStep o)) :
+    ∃ q t op, q < p ∧ evs[q]? = some (.invoke t o op) ∧ opOf evs o = some (t, op) := by
+  obtain ⟨sp, sp', h1, h2, _⟩ := run_prefix_step h p _ hp
+  obtain ⟨r, hr, _⟩ := step_mapStep_some h2
+  have h3 : opOf (evs.take p) o = some (r.tid, r.op) := by
+    rw [(Inv_run h1).ops_eq, hr]; rfl
+  obtain ⟨q, hq⟩ := opOf_some_pos h3
+  obtain ⟨hq1, hq2⟩ := getElem?_take_some.1 hq
+  exact ⟨q, r.tid, r.op, hq1, hq2, opOf_take h3⟩
+
+theorem respond_after_mapStep {evs : List Ev} {s : State} (h : run evs = some s)
+    {a : Nat} {o : Oid} {x : Option Val} (ha : evs[a]? = some (.respond o x)) :
+    ∃ p, p < a ∧ evs[p]? = some (.mapStep o) := by
+  obtain ⟨sp, sp', h1, h2, _⟩ := run_prefix_step h a _ ha
+  obtain ⟨r, hr, hph, _⟩ := step_respond_some h2
+  obtain ⟨j, hj, _⟩ := (Inv_run h1).stepped o r hr (by simp [hph])
+  exact ⟨j, getElem?_take_some.1 hj⟩
+
+theorem mapStep_unique {evs : List Ev} {s : State} (h : run evs = some s)
+    {j j' : Nat} {o : Oid} (hj : evs[j]? = some (.mapStep o))
+    (hj' : evs[j']? = some (.mapStep o)) : j = j' := by
+  have key : ∀ a b : Nat, a < b → evs[a]? = some (.mapStep o) → evs[b]? = some (.mapStep o) →
+      False := by
+    intro a b hab ha hb
+    obtain ⟨sp, sp', h1, h2, _⟩ := run_prefix_step h b _ hb
+    obtain ⟨r, hr, hph, _⟩ := step_mapStep_some h2
+    obtain ⟨r', hr', hph'⟩ := (Inv_run h1).step_rec o (mem_take_of_pos hab ha)
+    rw [hr] at hr'; simp only [Option.some.injEq] at hr'; subst hr'
+    exact hph' hph
+  rcases Nat.lt_trichotomy j j' with h1 | h1 | h1
+  · exact (key j j' h1 hj hj').elim
+  · exact h1
+  · exact (key j' j h1 hj' hj).elim
+
+theorem invoke_opOf {evs : List Ev} {s : State} (h : run evs = some s)
+    {q : Nat} {t : Tid} {o : Oid} {op : Op} (hq : evs[q]? = some (.invoke t o op)) :
+    opOf evs o = some (t, op) := by
+  obtain ⟨sp, sp', h1, h2, h3⟩ := run_prefix_step h q _ hq
+  obtain ⟨_, _, rfl⟩ := step_invoke_some h2
+  apply opOf_take (p := q + 1)
+  rw [(Inv_run h3).ops_eq]
+  simp [AL_get?_put]
+
+/-- The value a `get` returns is the value of its key just before its map step. -/
+theorem get_reads {evs : List Ev} {s : State} (h : run evs = some s)
+    {j : Nat} {g : Oid} {t : Tid} {k : Key} {x : Option Val}
+    (hj : evs[j]? = some (.mapStep g)) (hop : opOf evs g = some (t, .get k))
+    (hres : Ev.respond g x ∈ evs) : MapValAt evs k j x := by
+  have hi := Inv_run h
+  obtain ⟨r, hr, hph, hx⟩ := hi.resp_rec g x hres
+  obtain ⟨j0, hj0, hv⟩ := hi.stepped g r hr (by simp [hph])
+  have : j0 = j := mapStep_unique h hj0 hj
+  subst this
+  have h2 := hi.ops_eq g
+  rw [hr, hop] at h2
+  simp only [Option.map_some, Option.some.injEq, Prod.mk.injEq] at h2
+  rw [← hx]
+  exact hv k h2.2.symm
+
+theorem final_map {evs : List Ev} {s : State} (h : run evs = some s) (k : Key) :
+    MapValAt evs k evs.length (lookup s.map k) := (Inv_run h).mapv k
+
+theorem threadIdle_spec {s : State} {t : Tid} (h : threadIdle s t = true) {o : Oid} {r : OpRec}
+    (hr : AL.get? s.ops o = some r) (ht : r.tid = t) : r.phase = .done := by
+  have hm := AL_get?_mem _ _ _ hr
+  simp only [threadIdle, List.all_eq_true] at h
+  have := h _ hm
+  simp only [decide_eq_true_eq] at this
+  rcases this with h1 | h1
+  · exact absurd ht h1
+  · exact h1
+
+/-- A thread has at most one operation in flight: between two invocations by the same
+thread the first operation responds. -/
+theorem thread_sequential {evs : List Ev} {s : State} (h : run evs = some s)
+    {q1 q2 : Nat} {t : Tid} {o1 o2 : Oid} {op1 op2 : Op}
+    (h1 : evs[q1]? = some (.invoke t o1 op1)) (h2 : evs[q2]? = some (.invoke t o2 op2))
+    (hlt : q1 < q2) :
+    ∃ a x, q1 < a ∧ a < q2 ∧ evs[a]? = some (.respond o1 x) := by
+  -- state before the second invocation
+  obtain ⟨sp2, sp2', hr2, hs2, _⟩ := run_prefix_step h q2 _ h2
+  obtain ⟨_, hidle, _⟩ := step_invoke_some hs2
+  have hi2 := Inv_run hr2
+  -- `o1` is known in that state, owned by `t`
+  have hq1 : (evs.take q2)[q1]? = some (.invoke t o1 op1) := getElem?_take_some.2 ⟨hlt, h1⟩
+  have hop := invoke_opOf hr2 hq1
+  rw [hi2.ops_eq] at hop
+  cases hr : AL.get? sp2.ops o1 with
+  | none => simp [hr] at hop
+  | some r =>
+    simp only [hr, Option.map_some, Option.some.injEq, Prod.mk.injEq] at hop
+    have hdone := threadIdle_spec hidle hr hop.1
+    obtain ⟨a, ha1, ha2⟩ := mem_take_pos (hi2.done_resp o1 r hr hdone)
+    refine ⟨a, r.ret, ?_, ha1, ha2⟩
+    -- the response cannot precede the invocation
+    obtain ⟨sp1, sp1', hr1, hs1, _⟩ := run_prefix_step h q1 _ h1
+    obtain ⟨hnone, _, _⟩ := step_invoke_some hs1
+    rcases Nat.lt_trichotomy a q1 with hlt' | heq | hgt
+    · obtain ⟨r', hr', _⟩ := (Inv_run hr1).resp_rec o1 r.ret (mem_take_of_pos hlt' ha2)
+      simp [hnone] at hr'
+    · subst heq; simp [h1] at ha2
+    · exact hgt
+
+theorem invoke_unique {evs : List Ev} {s : State} (h : run evs = some s)
+    {q q' : Nat} {t t' : Tid} {o : Oid} {op op' : Op}
+    (hq : evs[q]? = some (.invoke t o op)) (hq' : evs[q']? = some (.invoke t' o op')) :
+    q = q' := by
+  have key : ∀ (a b : Nat) (t t' : Tid) (op op' : Op), a < b →
+      evs[a]? = some (.invoke t o op) → evs[b]? = some (.invoke t' o op') → False := by
+    intro a b t t' op op' hab ha hb
+    obtain ⟨sp, sp', h1, h2, _⟩ := run_prefix_step h b _ hb
+    obtain ⟨hnone, _, _⟩ := step_invoke_some h2
+    have h3 : opOf (evs.take b) o = none := by rw [(Inv_run h1).ops_eq, hnone]; rfl
+    exact opOf_none_not_mem h3 t op (mem_take_of_pos hab ha)
+  rcases Nat.lt_trichotomy q q' with h1 | h1 | h1
+  · exact (key _ _ _ _ _ _ h1 hq hq').elim
+  · exact h1
+  · exact (key _ _ _ _ _ _ h1 hq' hq).elim
+
+/-! ## Coherence lemmas (assembled into the C02 / C07 theorems) -/
+
+theorem effect_some_val {evs : List Ev} {e : Ev} {k : Key} {v : Val}
+    (h : effect evs e = some (k, some v)) :
+    ∃ w tw, e = .mapStep w ∧ opOf evs w = some (tw, .ins k v) := by
+  cases e with
+  | mapStep o =>
+    simp only [effect] at h
+    split at h
+    · rename_i t k' v' hop
+      simp only [Option.some.injEq, Prod.mk.injEq] at h
+      obtain ⟨rfl, rfl⟩ := h
+      exact ⟨o, t, rfl, hop⟩
+    · simp at h
+    · simp at h
+  | _ => simp [effect] at h
+
+/-- What `writesKey` means. -/
+theorem writesKey_iff {evs : List Ev} {e : Ev} {k : Key} :
+    writesKey evs e k = true ↔
+      e = .daemon k ∨
+      ∃ o t, e = .mapStep o ∧
+        ((∃ v, opOf evs o = some (t, .ins k v)) ∨ opOf evs o = some (t, .del k)) := by
+  cases e with
+  | daemon k' => simp [writesKey, effect]
+  | mapStep o =>
+    simp only [writesKey, effect, reduceCtorEq, Ev.mapStep.injEq, false_or]
+    cases hop : opOf evs o with
+    | none => simp [hop]
+    | some x =>
+      obtain ⟨t, op⟩ := x
+      cases op <;> simp [hop] <;> grind
+  | _ => simp [writesKey, effect]
+
+theorem read_from {evs : List Ev} {s : State} (h : run evs = some s)
+    {j : Nat} {g : Oid} {t : Tid} {k : Key} {v : Val}
+    (hj : evs[j]? = some (.mapStep g)) (hop : opOf evs g = some (t, .get k))
+    (hres : Ev.respond g (some v) ∈ evs) :
+    ∃ i w tw, i < j ∧ evs[i]? = some (.mapStep w) ∧ opOf evs w = some (tw, .ins k v) ∧
+      NoWriteIn evs k (i + 1) j := by
+  rcases get_reads h hj hop hres with ⟨h1, _⟩ | ⟨i, e, h1, h2, h3, h4⟩
+  · simp at h1
+  · obtain ⟨w, tw, rfl, hw⟩ := effect_some_val h3
+    exact ⟨i, w, tw, h1, h2, hw, h4⟩
+
+theorem writesKey_mapStep_of_op {evs : List Ev} {u : Oid} {tu : Tid} {opu : Op} {k : Key}
+    (hu : opOf evs u = some (tu, opu)) (hk : (∃ v, opu = .ins k v) ∨ opu = .del k) :
+    writesKey evs (.mapStep u) k = true := by
+  rw [writesKey_iff]
+  right
+  refine ⟨u, tu, rfl, ?_⟩
+  rcases hk with ⟨v, rfl⟩ | rfl
+  · exact Or.inl ⟨v, hu⟩
+  · exact Or.inr hu
+
+/-- An operation that responded before `g` was invoked has its map step before `g`'s. -/
+theorem mapStep_lt_of_resp_before_inv {evs : List Ev} {s : State} (h : run evs = some s)
+    {u g : Oid} {a b pu j : Nat} {x : Option Val} {tg : Tid} {opg : Op}
+    (ha : evs[a]? = some (.respond u x)) (hb : evs[b]? = some (.invoke tg g opg)) (hab : a < b)
+    (hpu : evs[pu]? = some (.mapStep u)) (hj : evs[j]? = some (.mapStep g)) : pu < j := by
+  obtain ⟨p, hp1, hp2⟩ := respond_after_mapStep h ha
+  have := mapStep_unique h hp2 hpu
+  subst this
+  obtain ⟨q, t', op', hq1, hq2, _⟩ := mapStep_invoked_before h hj
+  have := invoke_unique h hq2 hb
+  subst this
+  omega
+
+theorem not_superseded {evs : List Ev} {s : State} (h : run evs = some s)
+    {j : Nat} {g : Oid} {t : Tid} {k : Key} {v : Val}
+    (hj : evs[j]? = some (.mapStep g)) (hop : opOf evs g = some (t, .get k))
+    (hres : Ev.respond g (some v) ∈ evs)
+    {u : Oid} {tu : Tid} {opu : Op} {a b pu : Nat} {x : Option Val} {tg : Tid} {opg : Op}
+    (hu : opOf evs u = some (tu, opu)) (hk : (∃ v', opu = .ins k v') ∨ opu = .del k)
+    (ha : evs[a]? = some (.respond u x)) (hb : evs[b]? = some (.invoke tg g opg)) (hab : a < b)
+    (hpu : evs[pu]? = some (.mapStep u)) :
+    ∃ i w tw, i < j ∧ evs[i]? = some (.mapStep w) ∧ opOf evs w = some (tw, .ins k v) ∧
+      NoWriteIn evs k (i + 1) j ∧ pu ≤ i := by
+  obtain ⟨i, w, tw, h1, h2, h3, h4⟩ := read_from h hj hop hres
+  refine ⟨i, w, tw, h1, h2, h3, h4, ?_⟩
+  have hlt := mapStep_lt_of_resp_before_inv h ha hb hab hpu hj
+  rcases Nat.lt_or_ge i pu with hc | hc
+  · have := h4 pu (by omega) hlt _ hpu
+    rw [writesKey_mapStep_of_op hu hk] at this
+    simp at this
+  · exact hc
+
+theorem reader_after_del {evs : List Ev} {s : State} (h : run evs = some s)
+    {d g : Oid} {td tg : Tid} {k : Key} {a b pd j : Nat} {x y : Option Val}
+    (hd : opOf evs d = some (td, .del k))
+    (ha : evs[a]? = some (.respond d y)) (hb : evs[b]? = some (.invoke tg g (.get k)))
+    (hab : a < b)
+    (hpd : evs[pd]? = some (.mapStep d)) (hj : evs[j]? = some (.mapStep g))
+    (hno : ∀ m w tw v, pd < m → m < j → evs[m]? = some (.mapStep w) →
+      opOf evs w ≠ some (tw, .ins k v))
+    (hres : Ev.respond g x ∈ evs) : x = none := by
+  cases x with
+  | none => rfl
+  | some v =>
+    have hop := invoke_opOf h hb
+    obtain ⟨i, w, tw, h1, h2, h3, h4, h5⟩ :=
+      not_superseded h hj hop hres hd (Or.inr rfl) ha hb hab hpd
+    rcases Nat.lt_or_ge pd i with hc | hc
+    · exact absurd h3 (hno i w tw v hc h1 h2)
+    · have : pd = i := by omega
+      subst this
+      rw [hpd] at h2
+      simp only [Option.some.injEq, Ev.mapStep.injEq] at h2
+      subst h2
+      rw [hd] at h3; simp at h3
+
+theorem monotone {evs : List Ev} {s : State} (h : run evs = some s) {k : Key} {writer : Tid}
+    (hsingle : ∀ o t v, opOf evs o = some (t, .ins k v) → t = writer)
+    (hdistinct : ∀ o o' t t' v, opOf evs o = some (t, .ins k v) →
+      opOf evs o' = some (t', .ins k v) → o = o')
+    {g1 g2 : Oid} {t1 t2 : Tid} {j1 j2 : Nat} {v1 v2 : Val}
+    (hj1 : evs[j1]? = some (.mapStep g1)) (hop1 : opOf evs g1 = some (t1, .get k))
+    (hres1 : Ev.respond g1 (some v1) ∈ evs)
+    (hj2 : evs[j2]? = some (.mapStep g2)) (hop2 : opOf evs g2 = some (t2, .get k))
+    (hres2 : Ev.respond g2 (some v2) ∈ evs)
+    (hlt : j1 < j2)
+    {w1 w2 : Oid} {tw1 tw2 : Tid} {q1 q2 : Nat}
+    (hw1 : evs[q1]? = some (.invoke tw1 w1 (.ins k v1)))
+    (hw2 : evs[q2]? = some (.invoke tw2 w2 (.ins k v2))) :
+    q1 ≤ q2 := by
+  have ho1 := invoke_opOf h hw1
+  have ho2 := invoke_opOf h hw2
+  obtain ⟨i1, w1', tw1', a1, a2, a3, a4⟩ := read_from h hj1 hop1 hres1
+  obtain ⟨i2, w2', tw2', b1, b2, b3, b4⟩ := read_from h hj2 hop2 hres2
+  have e1 : w1' = w1 := hdistinct _ _ _ _ _ a3 ho1
+  have e2 : w2' = w2 := hdistinct _ _ _ _ _ b3 ho2
+  subst e1 e2
+  -- the map steps of the two writes are ordered like the reads
+  have hle : i1 ≤ i2 := by
+    rcases Nat.lt_or_ge i2 i1 with hc | hc
+    · have := b4 i1 (by omega) (by omega) _ a2
+      rw [writesKey_mapStep_of_op a3 (Or.inl ⟨v1, rfl⟩)] at this
+      simp at this
+    · exact hc
+  rcases Nat.lt_or_ge q2 q1 with hc | hc
+  · -- `w2` invoked first by the same thread, so it responded before `w1` was invoked
+    have t1w : tw1 = writer := hsingle _ _ _ ho1
+    have t2w : tw2 = writer := hsingle _ _ _ ho2
+    subst t1w t2w
+    obtain ⟨a, x, c1, c2, c3⟩ := thread_sequential h hw2 hw1 hc
+    obtain ⟨p, d1, d2⟩ := respond_after_mapStep h c3
+    have := mapStep_unique h d2 b2
+    subst this
+    obtain ⟨q, t', op', f1, f2, _⟩ := mapStep_invoked_before h a2
+    have := invoke_unique h f2 hw1
+    subst this
+    omega
+  · exact hc
+
+theorem final_state_some {evs : List Ev} {s : State} (h : run evs = some s) {k : Key} {v : Val}
+    (hv : lookup s.map k = some v) :
+    ∃ i w tw, evs[i]? = some (.mapStep w) ∧ opOf evs w = some (tw, .ins k v) ∧
+      NoWriteIn evs k (i + 1) evs.length := by
+  have hm := final_map h k
+  rw [hv] at hm
+  rcases hm with ⟨h1, _⟩ | ⟨i, e, h1, h2, h3, h4⟩
+  · simp at h1
+  · obtain ⟨w, tw, rfl, hw⟩ := effect_some_val h3
+    exact ⟨i, w, tw, h2, hw, h4⟩
+
+theorem final_state_none {evs : List Ev} {s : State} (h : run evs = some s) {k : Key}
+    {m : Nat} {e : Ev} (hm : evs[m]? = some e) (he : effect evs e = some (k, none))
+    (hlast : ∀ m' w tw v, m < m' → evs[m']? = some (.mapStep w) →
+      opOf evs w ≠ some (tw, .ins k v)) :
+    lookup s.map k = none := by
+  cases hv : lookup s.map k with
+  | none => rfl
+  | some v =>
+    obtain ⟨i, w, tw, h1, h2, h3⟩ := final_state_some h hv
+    have hmlt : m < evs.length := by
+      rcases Nat.lt_or_ge m evs.length with h' | h'
+      · exact h'
+      · simp [List.getElem?_eq_none h'] at hm
+    rcases Nat.lt_trichotomy m i with hc | hc | hc
+    · exact absurd h2 (hlast i w tw v hc h1)
+    · subst hc
+      rw [hm] at h1
+      simp only [Option.some.injEq] at h1
+      subst h1
+      simp [effect, h2] at he
+    · have := h3 m (by omega) hmlt e hm
+      simp [writesKey, he] at this
+
+/-! ## Soundness of the acceptor -/
+
+theorem orderOk_iff (L : List HOp) :
+    orderOk L = true ↔ L.Pairwise (fun a b => a.invStamp < b.resStamp) := by
+  induction L with
+  | nil => simp [orderOk]
+  | cons a l ih => simp [orderOk, ih, List.pairwise_cons]
+
+/-- A linearized operation that leaves the cell unchanged: a `get` returning a value. -/
+def IsHit (a : HOp) : Prop := ∃ k v, a.op = .get k ∧ a.result = some v
+
+theorem applyOp_cases {cur c : Option Val} {a : HOp} (h : applyOp cur a = some c) :
+    (∃ k v, a.op = .ins k v ∧ c = some v) ∨ (c = none ∧ ¬ IsHit a) ∨ (IsHit a ∧ c = cur) := by
+  unfold applyOp at h
+  split at h
+  · rename_i k v hop
+    simp only [Option.some.injEq] at h
+    exact Or.inl ⟨k, v, hop, h.symm⟩
+  · rename_i k hop
+    simp only [Option.some.injEq] at h
+    refine Or.inr (Or.inl ⟨h.symm, ?_⟩)
+    rintro ⟨k', v', h1, _⟩; rw [hop] at h1; simp at h1
+  · rename_i k hop hres
+    simp only [Option.some.injEq] at h
+    refine Or.inr (Or.inl ⟨h.symm, ?_⟩)
+    rintro ⟨k', v', _, h2⟩; rw [hres] at h2; simp at h2
+  · rename_i k v hop hres
+    split at h
+    · simp only [Option.some.injEq] at h
+      exact Or.inr (Or.inr ⟨⟨k, v, hop, hres⟩, h.symm⟩)
+    · simp at h
+
+theorem applyOp_hit {cur c : Option Val} {g : HOp} {k : Key} {v : Val}
+    (hop : g.op = .get k) (hres : g.result = some v) (h : applyOp cur g = some c) :
+    cur = some v := by
+  unfold applyOp at h
+  rw [hop, hres] at h
+  simp only at h
+  split at h
+  · assumption
+  · simp at h
+
+/-- In a successful replay, a hit `g` returning `v` is preceded by an `ins _ v` with only
+hits in between (or the initial cell already holds `v`, with only hits before `g`). -/
+theorem replay_hit {L : List HOp} {cur : Option Val} (hrep : replay cur L = true)
+    {g : HOp} {k : Key} {v : Val} (hg : g ∈ L) (hop : g.op = .get k)
+    (hres : g.result = some v) :
+    (cur = some v ∧ ∃ l1 l2, L = l1 ++ g :: l2 ∧ ∀ a ∈ l1, IsHit a) ∨
+    (∃ l1 w l2 l3 k', L = l1 ++ w :: l2 ++ g :: l3 ∧ w.op = .ins k' v ∧ ∀ a ∈ l2, IsHit a) := by
+  induction L generalizing cur with
+  | nil => simp at hg
+  | cons a l ih =>
+    simp only [replay] at hrep
+    cases hap : applyOp cur a with
+    | none => simp [hap] at hrep
+    | some c =>
+      simp only [hap] at hrep
+      by_cases hga : g = a
+      · subst hga
+        exact Or.inl ⟨applyOp_hit hop hres hap, [], l, rfl, by simp⟩
+      · have hgl : g ∈ l := by
+          rcases List.mem_cons.1 hg with h | h
+          · exact absurd h hga
+          · exact h
+        rcases ih hrep hgl with ⟨hc, l1, l2, hl, hhits⟩ | ⟨l1, w, l2, l3, k', hl, hw, hhits⟩
+        · rcases applyOp_cases hap with ⟨k', v', hins, hcv⟩ | ⟨hcn, _⟩ | ⟨hhit, hcc⟩
+          · right
+            have : v' = v := by rw [hcv] at hc; simpa using hc
+            subst this
+            exact ⟨[], a, l1, l2, k', by simp [hl], hins, hhits⟩
+          · rw [hcn] at hc; simp at hc
+          · left
+            refine ⟨by rw [← hcc]; exact hc, a :: l1, l2, by simp [hl], ?_⟩
+            intro b hb
+            rcases List.mem_cons.1 hb with h | h
+            · rw [h]; exact hhit
+            · exact hhits b h
+        · right
+          exact ⟨a :: l1, w, l2, l3, k', by simp [hl], hw, hhits⟩
+
+theorem isHit_not_write {a : HOp} (h : IsHit a) : a.op.isWrite = false := by
+  obtain ⟨k, v, h1, _⟩ := h
+  rw [h1]; rfl
+
+/-- Soundness of the certificate checker, per key. -/
+theorem checkLin_sound {ops L : List HOp} (hchk : checkLin ops L = true) {k : Key}
+    (hkey : ∀ a ∈ ops, a.op.key = k) (hwf : ∀ a ∈ ops, a.invStamp < a.resStamp)
+    {g : HOp} {v : Val} (hg : g ∈ ops) (hop : g.op = .get k) (hres : g.result = some v) :
+    ∃ w ∈ ops, w.op = .ins k v ∧ w.invStamp < g.resStamp ∧
+      ∀ u ∈ ops, u.op.isWrite = true →
+        ¬ (w.resStamp < u.invStamp ∧ u.resStamp < g.invStamp) := by
+  simp only [checkLin, Bool.and_eq_true] at hchk
+  obtain ⟨⟨hperm, hord⟩, hrep⟩ := hchk
+  have hperm := List.isPerm_iff.1 hperm
+  have hord := (orderOk_iff L).1 hord
+  have hgL : g ∈ L := hperm.mem_iff.2 hg
+  rcases replay_hit hrep hgL hop hres with ⟨hc, _⟩ | ⟨l1, w, l2, l3, k', hl, hw, hhits⟩
+  · simp at hc
+  · subst hl
+    have hwops : w ∈ ops := hperm.mem_iff.1 (by simp)
+    have hk' : k' = k := by
+      have := hkey w hwops
+      rw [hw] at this; exact this
+    subst hk'
+    -- unfold the pairwise order facts
+    simp only [List.append_assoc, List.cons_append, List.pairwise_append, List.pairwise_cons,
+      List.mem_append, List.mem_cons] at hord
+    obtain ⟨hp1, ⟨hwall, hp2, ⟨hgall, hp3⟩, hcross2⟩, hcross1⟩ := hord
+    refine ⟨w, hwops, hw, hwall g (Or.inr (Or.inl rfl)), ?_⟩
+    intro u hu huw ⟨hc1, hc2⟩
+    have huL : u ∈ l1 ++ w :: l2 ++ g :: l3 := hperm.mem_iff.2 hu
+    simp only [List.append_assoc, List.cons_append, List.mem_append, List.mem_cons] at huL
+    rcases huL with h1 | h1 | h1 | h1 | h1
+    · have := hcross1 u h1 w (Or.inl rfl)
+      omega
+    · subst h1
+      have := hwf u hwops
+      omega
+    · rw [isHit_not_write (hhits u h1)] at huw; simp at huw
+    · subst h1
+      rw [hop] at huw; simp [Op.isWrite] at huw
+    · have := hgall u h1
+      omega
+
+theorem mem_dedupKeys {l : List Key} {k : Key} : k ∈ dedupKeys l ↔ k ∈ l := by
+  induction l with
+  | nil => simp [dedupKeys]
+  | cons a r ih =>
+    simp only [dedupKeys]
+    split
+    · rename_i hc
+      have : a ∈ r := by simpa using hc
+      rw [ih]; simp only [List.mem_cons]
+      constructor
+      · exact Or.inr
+      · rintro (h | h)
+        · rw [h]; exact this
+        · exact h
+    · simp [ih]
+
+theorem acceptKey_checkLin {ops : List HOp} (h : acceptKey ops = true) :
+    ∃ L, checkLin ops L = true := by
+  unfold acceptKey at h
+  split at h
+  · rename_i L _; exact ⟨L, h⟩
+  · simp at h
+
+theorem acceptR_sound_aux {h : List HOp} (hacc : acceptR h = true)
+    {g : HOp} {k : Key} {v : Val} (hg : g ∈ h) (hop : g.op = .get k) (hres : g.result = some v) :
+    ∃ w ∈ h, w.op = .ins k v ∧ w.invStamp < g.resStamp ∧
+      ∀ u ∈ h, u.op.key = k → u.op.isWrite = true →
+        ¬ (w.resStamp < u.invStamp ∧ u.resStamp < g.invStamp) := by
+  simp only [acceptR, wfHistory, Bool.and_eq_true, List.all_eq_true, decide_eq_true_eq] at hacc
+  obtain ⟨⟨hwf, _⟩, hkeys⟩ := hacc
+  have hgk : g.op.key = k := by rw [hop]; rfl
+  have hk : k ∈ keysOf h := by
+    simp only [keysOf, mem_dedupKeys, List.mem_map]
+    exact ⟨g, hg, hgk⟩
+  obtain ⟨L, hL⟩ := acceptKey_checkLin (hkeys k hk)
+  have hfk : ∀ a ∈ h.filter (fun a => a.op.key == k), a.op.key = k := by
+    intro a ha
+    simpa using (List.mem_filter.1 ha).2
+  have hfwf : ∀ a ∈ h.filter (fun a => a.op.key == k), a.invStamp < a.resStamp :=
+    fun a ha => hwf a (List.mem_filter.1 ha).1
+  have hgf : g ∈ h.filter (fun a => a.op.key == k) :=
+    List.mem_filter.2 ⟨hg, by simpa using hgk⟩
+  obtain ⟨w, hw, h1, h2, h3⟩ := checkLin_sound hL hfk hfwf hgf hop hres
+  refine ⟨w, (List.mem_filter.1 hw).1, h1, h2, ?_⟩
+  intro u hu huk huw
+  exact h3 u (List.mem_filter.2 ⟨hu, by simpa using huk⟩) huw
+
+/-! ## Small helpers for stating theorems and checking concrete executions -/
+
+theorem WF_iff {evs : List Ev} : WF evs ↔ ∃ s, run evs = some s := by
+  unfold WF; exact Option.isSome_iff_exists
+
+theorem effect_of_delete {evs : List Ev} {e : Ev} {k : Key}
+    (h : e = .daemon k ∨ ∃ d td, e = .mapStep d ∧ opOf evs d = some (td, .del k)) :
+    effect evs e = some (k, none) := by
+  rcases h with rfl | ⟨d, td, rfl, hd⟩
+  · rfl
+  · simp [effect, hd]
+
+/-- Operation ids invoked in a trace. -/
+def oids : List Ev → List Oid
+  | [] => []
+  | .invoke _ o _ :: es => o :: oids es
+  | _ :: es => oids es
+
+theorem opOf_some_mem_oids {evs : List Ev} {o : Oid} {x : Tid × Op} (h : opOf evs o = some x) :
+    o ∈ oids evs := by
+  induction evs with
+  | nil => simp [opOf] at h
+  | cons e es ih =>
+    cases e with
+    | invoke t o' op =>
+      simp only [opOf] at h
+      simp only [oids, List.mem_cons]
+      split at h
+      · left; simp_all
+      · right; exact ih h
+    | _ => simp only [opOf] at h; simpa [oids] using ih h
+
+/-- Decidable form of "all `ins k _` are issued by `writer`". -/
+def singleWriterB (evs : List Ev) (k : Key) (writer : Tid) : Bool :=
+  (oids evs).all fun o =>
+    match opOf evs o with
+    | some (t, .ins k' _) => k' != k || t == writer
+    | _ => true
+
+/-- Decidable form of "the `ins k _` operations carry pairwise distinct values". -/
+def distinctValsB (evs : List Ev) (k : Key) : Bool :=
+  (oids evs).all fun o => (oids evs).all fun o' =>
+    match opOf evs o, opOf evs o' with
+    | some (_, .ins k1 v1), some (_, .ins k2 v2) => !(k1 == k && k2 == k && v1 == v2) || o == o'
+    | _, _ => true
+
+theorem singleWriterB_spec {evs : List Ev} {k : Key} {writer : Tid}
+    (h : singleWriterB evs k writer = true) :
+    ∀ o t v, opOf evs o = some (t, .ins k v) → t = writer := by
+  intro o t v ho
+  simp only [singleWriterB, List.all_eq_true] at h
+  have := h o (opOf_some_mem_oids ho)
+  simpa [ho] using this
+
+theorem distinctValsB_spec {evs : List Ev} {k : Key} (h : distinctValsB evs k = true) :
+    ∀ o o' t t' v, opOf evs o = some (t, .ins k v) → opOf evs o' = some (t', .ins k v) →
+      o = o' := by
+  intro o o' t t' v ho ho'
+  simp only [distinctValsB, List.all_eq_true] at h
+  have := h o (opOf_some_mem_oids ho) o' (opOf_some_mem_oids ho')
+  simpa [ho, ho'] using this
+
 end ConcR
 end MiniMoka
